@@ -13,6 +13,8 @@ pub const IDENTS: &[&str] = &[
     "mixedCase", "X", "Ab", "lower", "UPPER",
     // prelude look-alikes
     "Some", "None", "Ok", "Err", "Default", "Const", "Type", "Box", "Self_", "String", "Vec", "Option",
+    // a single letter at the end of the alphabet; "Is.." inside a longer word; lower-case initial r
+    "Z", "Zz", "Island", "Issue", "rax", "red",
     // ordinary names whose snake_case form is a keyword
     "Super", "Crate", "Match", "Loop", "Async", "Move", "Dyn", "Ref",
     // non-ASCII
